@@ -460,6 +460,104 @@ def alarm_task(task, ctx: Ctx):
                 ctx.violation(clause, f"C13/{clause}/{loopname}/{feat}", {"part": "alarms", "loop": loopname, "order": list(order), "remove": remove, "where": where}, detail)
 
 
+# ---------------------------------------------------------------------- part 3: watches and idle callbacks removed before run()
+def run_prerun(loopname, rm_watch, rm_idle):
+    """three watches (all readable from the start) and two idle callbacks registered before run(); the subsets rm_watch / rm_idle are removed
+    again before run(); -> (calls, removal results, result)"""
+    logging.disable(logging.CRITICAL)
+    w = World(())
+    evl, mkfd, closer = MAKERS[loopname](w)
+    calls, rm = [], []
+    H = {}
+
+    def mk_watch(fd):
+        def f(*_a):
+            calls.append(("w", fd))
+            w.readable.discard(fd)
+
+        return f
+
+    def mk_idle(n):
+        def f(*_a):
+            calls.append(("i", n))
+
+        return f
+
+    def end(*_a):
+        raise ExitMainLoop
+
+    for fd in (7, 8, 9):
+        H[("w", fd)] = evl.watch_file(mkfd(fd), mk_watch(fd))
+        w.readable.add(fd)
+    for n in (1, 2):
+        H[("i", n)] = evl.enter_idle(mk_idle(n))
+    evl.alarm(1.0, end)
+    for fd in rm_watch:
+        try:
+            rm.append((("w", fd), evl.remove_watch_file(H[("w", fd)])))
+        except Exception as e:  # noqa: BLE001
+            rm.append((("w", fd), f"EXC:{exc_site(e)}"))
+    for n in rm_idle:
+        try:
+            rm.append((("i", n), evl.remove_enter_idle(H[("i", n)])))
+        except Exception as e:  # noqa: BLE001
+            rm.append((("i", n), f"EXC:{exc_site(e)}"))
+    res = "ok"
+    try:
+        with contextlib.redirect_stdout(io.StringIO()), contextlib.redirect_stderr(io.StringIO()):
+            try:
+                evl.run()
+            except Horizon as e:
+                res = f"HORIZON:{e}"
+            except BaseException as e:  # noqa: BLE001
+                res = f"EXC:{exc_site(e)}"
+            if w.horizon and not res.startswith("HORIZON"):
+                res = f"HORIZON:{w.horizon}"
+    finally:
+        if closer:
+            with contextlib.suppress(Exception):
+                closer()
+        logging.disable(logging.NOTSET)
+    return calls, rm, res
+
+
+def judge_prerun(loopname, rm_watch, rm_idle, calls, rm, res):
+    out = []
+    if res != "ok":
+        out.append(("run-returns", "prerun", f"run() ended with {res}"))
+        return out
+    for what, r in rm:
+        if r is not True:
+            out.append(("remove-result", f"prerun/{'watch' if what[0] == 'w' else 'idle'}", f"removing {what} before run() returned {r!r}, expected True"))
+    for fd in (7, 8, 9):
+        n = calls.count(("w", fd))
+        if fd in rm_watch and n:
+            out.append(("watch-removed-silent", "prerun", f"watch on {fd} was removed before run() but its callback ran {n}x"))
+        if fd not in rm_watch and n != 1:
+            out.append(("watch-called", "prerun", f"watch on {fd} (readable once) ran {n}x"))
+    for n_ in (1, 2):
+        n = calls.count(("i", n_))
+        if n_ in rm_idle and n:
+            out.append(("idle-removed-silent", "prerun", f"idle callback {n_} was removed before run() but ran {n}x"))
+        if n_ not in rm_idle and not n and len(rm_watch) < 3:
+            out.append(("idle-after-callback", "prerun", f"idle callback {n_} never ran although watch callbacks ran"))
+    return out
+
+
+def prerun_task(task, ctx: Ctx):
+    (loopname,) = task
+    env.reset("utf-8")
+    for k in range(4):
+        for rm_watch in itertools.combinations((7, 8, 9), k):
+            for j in range(3):
+                for rm_idle in itertools.combinations((1, 2), j):
+                    ctx.count("evaluations")
+                    calls, rm, res = run_prerun(loopname, rm_watch, rm_idle)
+                    ctx.distinct("nontrivial", (loopname, "prerun", rm_watch, rm_idle))
+                    for clause, feat, detail in judge_prerun(loopname, rm_watch, rm_idle, calls, rm, res):
+                        ctx.violation(clause, f"C13/{clause}/{loopname}/{feat}", {"part": "prerun", "loop": loopname, "rm_watch": list(rm_watch), "rm_idle": list(rm_idle)}, detail + f"; calls {calls}")
+
+
 def alarm_orders(nmax):
     return [p for n in range(1, nmax + 1) for p in itertools.permutations(range(1, n + 1))]
 
@@ -492,6 +590,7 @@ def run(tier, R):
         for i in range(0, len(orders), 400):
             atasks.append((loopname, orders[i : i + 400]))
     R.run_tasks(alarm_task, atasks, recheck=0.02, task_timeout=1800)
+    R.run_tasks(prerun_task, [(ln,) for ln in LOOPS], recheck=0.0, task_timeout=600)
     ev = int(R.ctx.counts["evaluations"])
     nt = len(R.ctx.sets.get("nontrivial", ()))
     cov = {
@@ -505,7 +604,7 @@ def run(tier, R):
         f"schedule with at most {2 if tier == 'quick' else 3} deviations (trio: {1 if tier == 'quick' else 2}) from the default environment answer (which readable descriptors a wait "
         "reports, in which order; trio: batch reversal per scheduler tick); each execution judged by the contract acceptor. Part 2: every registration order of n alarms with distinct due "
         f"times (n up to {ALARM_NMAX[tier]}), with no removal, each alarm removed before run(), and each alarm removed from the callback of the earliest other alarm: firing order, firing "
-        "times and remove_alarm results. non-trivial = distinct (loop, program, callback trace, result)",
+        "times and remove_alarm results. Part 3: three readable watches and two idle callbacks registered before run(), every subset of them removed again before run(). non-trivial = distinct (loop, program, callback trace, result)",
         "exhaustive": True,
         "bound": {"deviations": 2 if tier == "quick" else 3, "trio_deviations": 1 if tier == "quick" else 2},
         "distinct_outcome_sets": len(R.ctx.sets.get("outcomes", ())),
@@ -527,6 +626,13 @@ def replay(case, ctx):
         return tuple(tup(x) if isinstance(x, (list, tuple)) else x for x in p)
 
     loopname = case["loop"]
+    if case.get("part") == "prerun":
+        rw, ri = tuple(case["rm_watch"]), tuple(case["rm_idle"])
+        calls, rm, res = run_prerun(loopname, rw, ri)
+        print("  calls:", calls, "removals:", rm, "result:", res)
+        for clause, feat, detail in judge_prerun(loopname, rw, ri, calls, rm, res):
+            ctx.violation(clause, f"C13/{clause}/{loopname}/{feat}", case, detail)
+        return
     if case.get("part") == "alarms":
         order, remove, where = tuple(case["order"]), case["remove"], case["where"]
         fired, rm, res = run_alarms(loopname, order, remove, where)
